@@ -339,6 +339,9 @@ func (ci *crdIpam) ConfigurePool(floatIPs []*FloatingIPPool) error {
 			len(ci.unallocatedFIPs), len(ci.allocatedFIPs))
 	}()
 	sort.Sort(FloatingIPSlice(floatIPs))
+	// hold the lock while listing, otherwise allocations and releases made between listing and swapping the tables are lost
+	ci.cacheLock.Lock()
+	defer ci.cacheLock.Unlock()
 	ips, err := ci.listFloatingIPs()
 	if err != nil {
 		glog.Errorf("fail to list floatIP %v", err)
@@ -376,8 +379,6 @@ func (ci *crdIpam) ConfigurePool(floatIPs []*FloatingIPPool) error {
 			deletingIPs = append(deletingIPs, ip.Name)
 		}
 	}
-	ci.cacheLock.Lock()
-	defer ci.cacheLock.Unlock()
 	ci.FloatingIPs = floatIPs
 	ci.allocatedFIPs = tmpCacheAllocated
 	if len(deletingIPs) > 0 {
